@@ -27,3 +27,33 @@ func TestVerifWitnessC20StaleError(t *testing.T) {
 	}
 	_ = c.Close()
 }
+
+// C20 (post[temp-iff-4yz-of-the-reply]@sendSingleMsg, RSET step): the message is delivered, the RSET that
+// follows is answered 451. ResetWithSMTPClient wraps the reply error and isTempError looked at the first
+// byte of the wrapping text, so the 4yz reply was reported as not temporary (its code, taken from the
+// unwrapped error, was right).
+func TestVerifWitnessC20ResetTemporary(t *testing.T) {
+	srv := &vServer{Greeting: "220 ready\r\n", Respond: func(v, l string, n int) string {
+		if v == "RSET" {
+			return "451 4.3.0 busy\r\n"
+		}
+		return vOK(v, l, n)
+	}}
+	c := vClient(t, srv)
+	m := vMsg("d@e.f")
+	err := c.Send(m)
+	if err == nil {
+		t.Fatal("Send should report the failed RSET")
+	}
+	se, ok := m.SendError().(*SendError)
+	if !ok || se == nil {
+		t.Fatalf("no SendError on the message: %v", m.SendError())
+	}
+	if se.ErrorCode() != 451 {
+		t.Errorf("error code is %d, the reply was 451", se.ErrorCode())
+	}
+	if !se.IsTemp() {
+		t.Errorf("reply 451 to RSET is reported as not temporary")
+	}
+	_ = c.Close()
+}
